@@ -625,6 +625,11 @@ func c10LogsVsBank(w *World, rec *BlockRecord, t *TxInfo) {
 		r.Count("o:erc20_logs_vs_bank_checked")
 		r.Probe("erc20_tx_with_several_transfer_logs", nLogs > 1)
 		for _, a := range addrs {
+			if pre.Acc[a] != nil && post.Acc[a] == nil {
+				// the account was destroyed in this tx (self-destruct, empty-account sweep): destruction burns whatever it
+				// held, in every denomination, without the token having a say (C15's rule, not a token movement)
+				continue
+			}
 			delta := new(big.Int).Sub(post.Balance(a, denom), pre.Balance(a, denom))
 			want := net[a]
 			if want == nil {
